@@ -1311,3 +1311,86 @@ pub fn c17_teardown(seed: u64) -> Scenario {
         params: Default::default(),
     }
 }
+
+// ------------------------------------------------------------------------------------------
+// C09: metamorphic ISN / connection-id invariance. The base run starts at small numbers; the
+// params carry the numbers of the shifted run (near the 16-bit wrap, at the sign boundary, ...).
+
+pub fn c09_isn(seed: u64) -> Scenario {
+    let mut r = Rng::new(seed ^ 0xC09);
+    let mut p = Profile::full(if r.chance(0.2) { 400_000 } else { 60_000 });
+    p.suspend = false;
+    p.cuts = r.chance(0.3);
+    let mut sc = duplex(seed, "c09_isn", &p);
+    // base: small numbers, far from any wrap for the length of the transfer
+    sc.nodes[0].env.forced = vec![r.range(1, 2000) as u16, r.range(1, 2000) as u16];
+    sc.nodes[1].env.forced = vec![r.range(1, 2000) as u16, r.range(1, 2000) as u16];
+    // shifted: each number independently
+    let pick = |r: &mut Rng, horizon: u64| -> u16 {
+        match r.below(8) {
+            0 => 65535,
+            1 => 0,
+            2 => 32767,
+            3 => 32768,
+            4 => (65536 - r.log_range(1, horizon.max(2))) as u16,
+            5 => (32768 - r.log_range(1, horizon.max(2)) as i64) as u16,
+            6 => (65536 - r.range(1, 64)) as u16,
+            _ => r.next() as u16,
+        }
+    };
+    // number of packets a side may send: bytes / smallest segment, plus control packets
+    let horizon = 1500;
+    sc.params.insert("v_cid_a".into(), pick(&mut r, 4) as i64);
+    sc.params.insert("v_isn_a".into(), pick(&mut r, horizon) as i64);
+    sc.params.insert("v_cid_b".into(), pick(&mut r, 4) as i64);
+    sc.params.insert("v_isn_b".into(), pick(&mut r, horizon) as i64);
+    sc
+}
+
+/// C09, wide-window variant: loss-free, small segments, long fat pipe, large buffers, so that
+/// more than a thousand packets are in flight when the sequence numbers wrap ("every distance
+/// the configured windows allow").
+pub fn c09_wide(seed: u64) -> Scenario {
+    let mut r = Rng::new(seed ^ 0xC09_1DE);
+    let ipv6 = false;
+    let link = r.range(60, 140) as usize; // 12..92 bytes of payload per packet
+    let mss = max_payload(link, ipv6) as u64;
+    let pkts = r.range(2500, 9000);
+    let total = pkts * mss;
+    let mk = |link: usize| OptsCfg {
+        link_mtu: Some(link),
+        rx_buf: Some(1 << 20),
+        tx_init: Some(1 << 20),
+        tx_max: Some(1 << 20),
+        disable_nagle: false,
+        inactivity_ms: Some(60_000),
+        max_retx: Some(5),
+        ..Default::default()
+    };
+    let net = NetCfg { seed: r.next(), latency_us: r.range(40, 400) * 1000, ..Default::default() };
+    let wa = vec![WOp::Write { n: total, chunk: r.range(1000, 70_000) as usize }, WOp::Flush, WOp::WaitRead(8), WOp::Shutdown];
+    let wb = vec![WOp::Write { n: 8, chunk: 8 }, WOp::WaitRead(total), WOp::Shutdown];
+    let rd = vec![ROp::Read { n: u64::MAX, buf: 65536, vectored: false }];
+    let mut sc = Scenario {
+        family: "c09_wide".into(),
+        seed,
+        net,
+        nodes: vec![
+            NodeCfg { ipv6, opts: mk(link), env: EnvCfg { seed: r.next(), forced: vec![r.range(1, 2000) as u16, r.range(1, 2000) as u16] } },
+            NodeCfg { ipv6, opts: mk(link), env: EnvCfg { seed: r.next(), forced: vec![r.range(1, 2000) as u16, r.range(1, 2000) as u16] } },
+        ],
+        connects: vec![ConnectScript { node: 0, to: 1, at_ms: 0, cancel_after_ms: None, side: Side { w: wa, r: rd.clone() } }],
+        accepts: vec![AcceptScript { node: 1, at_ms: 0, cancel_after_ms: None, side: Side { w: wb, r: rd } }],
+        global: vec![],
+        peer: None,
+        script_cap_ms: 600_000,
+        settle_ms: 2_000,
+        params: Default::default(),
+    };
+    // the connector's numbers wrap somewhere inside the transfer
+    sc.params.insert("v_cid_a".into(), r.range(0, 65535) as i64);
+    sc.params.insert("v_isn_a".into(), (65536 - r.range(1, pkts)) as u16 as i64);
+    sc.params.insert("v_cid_b".into(), r.range(0, 65535) as i64);
+    sc.params.insert("v_isn_b".into(), r.range(0, 65535) as i64);
+    sc
+}
